@@ -533,6 +533,9 @@ def histories(tier, seed):
     # a resume after every third batch of the exploration phase (checkpoints written by the incremental update right after batches with transfers)
     add([x for m in range(120, 900, 60) for x in (('run', dict(n_eff=200, n_like_max=m)), ('resume',))] + [('run', dict(n_eff=200))],
         kind='gauss', n_live=60, n_batch=20, n_update=30, blob='two')
+    # resume with an ensemble of two networks per bound (the restored bounds must be the bounds that were written)
+    add([('run', dict(n_eff=200, n_like_max=700)), ('resume',), ('run', dict(n_eff=200, n_like_max=1300)), ('resume',), ('run', dict(n_eff=200))],
+        kind='funnel', n_dim=2, n_live=100, n_batch=50, n_networks=2, blob=None)
     # geometry hugging the faces of the cube
     add([('run', dict(n_eff=300))], kind='ridge_edge', n_live=200, n_batch=50, blob=None)
     add([('run', dict(n_eff=300))], kind='ridge_edge', n_live=200, n_batch=50, blob=None, seed=seed + 2)
